@@ -348,6 +348,59 @@ def consR {α : Type} : R α → R (List α) → R (List α)
 @[simp] theorem consR_ok {α : Type} (a : α) (l : List α) : consR (.ok a : R α) (.ok l) = .ok (a :: l) := rfl
 @[simp] theorem pairR_ok {α β : Type} (a : α) (b : β) : pairR (.ok a : R α) (.ok b : R β) = .ok (a, b) := rfl
 
+/-! ### ignored fields (`deserialize_ignored_any`)
+
+The derived `visit_map` reads the value of an entry that names no field as `IgnoredAny`;
+`deserialize_ignored_any` is forwarded to `deserialize_any`, so the whole value is walked: an invalid
+value or a plain object inside it fails the deserialisation although the field is ignored. -/
+
+mutual
+def ignoreV : V → R Unit
+  | .invalid => .error .err
+  | .obj _ => .error .unmodelled
+  | .seq _ xs => ignoreList xs
+  | .map kvs => ignorePairs kvs
+  | _ => .ok ()
+def ignoreList : List V → R Unit
+  | [] => .ok ()
+  | x :: xs =>
+    match ignoreV x with
+    | .error e => .error e
+    | .ok _ => ignoreList xs
+def ignorePairs : List (V × V) → R Unit
+  | [] => .ok ()
+  | (k, v) :: rest =>
+    match ignoreV k with
+    | .error e => .error e
+    | .ok _ =>
+      match ignoreV v with
+      | .error e => .error e
+      | .ok _ => ignorePairs rest
+end
+
+/-- `r`, provided the guard succeeded -/
+def guardR {α : Type} (g : R Unit) (r : R α) : R α :=
+  match g with
+  | .ok _ => r
+  | .error e => .error e
+
+@[simp] theorem guardR_ok {α : Type} (r : R α) : guardR (.ok ()) r = r := rfl
+
+/-- the values under keys that name no field, in a map with string keys -/
+def ignoredOK (names : List Str) : List (V × V) → R Unit
+  | [] => .ok ()
+  | (.str n _, v) :: rest =>
+    match findName n names with
+    | some _ => ignoredOK names rest
+    | Option.none => guardR (ignoreV v) (ignoredOK names rest)
+  | _ :: rest => ignoredOK names rest
+
+/-- the values of the resolved entries that name no field -/
+def ignoredSlots : List (Option Nat × V) → R Unit
+  | [] => .ok ()
+  | (some _, _) :: rest => ignoredSlots rest
+  | (Option.none, v) :: rest => guardR (ignoreV v) (ignoredSlots rest)
+
 mutual
 def de : Shape → V → R D
   | .bool, v =>
@@ -440,11 +493,12 @@ def de : Shape → V → R D
     match v with
     | .map kvs =>
       if allStrKeys kvs then
-        mapOk D.list (deFields names ss kvs)
+        guardR (ignoredOK names kvs) (mapOk D.list (deFields names ss kvs))
       else
         match resolveKeys names kvs with
         | .error e => .error e
-        | .ok slots => if dupSlots slots then .error .err else mapOk D.list (deSlots names ss 0 slots)
+        | .ok slots =>
+          if dupSlots slots then .error .err else guardR (ignoredSlots slots) (mapOk D.list (deSlots names ss 0 slots))
     | .seq _ xs =>                                                         -- derived visit_seq
       mapOk D.list (deList ss xs)
     | .obj _ => .error .unmodelled
@@ -523,11 +577,12 @@ def deV : VShape → Option V → R D
     match payload with
     | some (.map kvs) =>
       if allStrKeys kvs then
-        mapOk D.list (deFields names ss kvs)
+        guardR (ignoredOK names kvs) (mapOk D.list (deFields names ss kvs))
       else
         match resolveKeys names kvs with
         | .error e => .error e
-        | .ok slots => if dupSlots slots then .error .err else mapOk D.list (deSlots names ss 0 slots)
+        | .ok slots =>
+          if dupSlots slots then .error .err else guardR (ignoredSlots slots) (mapOk D.list (deSlots names ss 0 slots))
     | some (.obj _) => .error .unmodelled
     | _ => .error .err
 end
